@@ -113,6 +113,49 @@ def o_header(case):
     return ["net=" + case["net"], "version-high-bit" if case["version"] >> 31 else "version-low"]
 
 
+def o_header_history(case):
+    """one long-lived header object: id / hash / serialisation queries interleaved with set_nonce(); the id is always the
+    double-SHA256 of the 80 bytes the object serialises to at that moment"""
+    net = NETS[case["net"]]
+    Block = net.block
+    prev, root = bytes.fromhex(case["prev"]), bytes.fromhex(case["root"])
+    nonce = case["nonce"]
+    b = Block(case["version"], prev, root, case["time"], case["bits"], nonce)
+    labels, asked, changed_after_ask = ["net=" + case["net"]], False, False
+    for step, op in enumerate(case["ops"]):
+        raw = ref.ser_header(case["version"], prev, root, case["time"], case["bits"], nonce)
+        if op[0] == "nonce":
+            nonce = op[1]
+            b.set_nonce(nonce)
+            if asked:
+                changed_after_ask = True
+            continue
+        if op[0] == "id":
+            got, want = b.id(), ref.header_id(raw)
+        elif op[0] == "hash":
+            got, want = b.hash(), ref.header_hash(raw)
+        elif op[0] == "str":
+            str(b), repr(b)
+            continue
+        else:
+            got, want = b.as_bin(), raw
+        asked = True
+        if got != want:
+            _bad("header:history:%s-stale-or-wrong" % op[0], "step %d of %s: %s() = %s, expected %s for nonce %d" % (
+                step, case["ops"], op[0], got.hex() if isinstance(got, bytes) else got, want.hex() if isinstance(want, bytes) else want, nonce))
+        if changed_after_ask:
+            labels.append("query-after-set_nonce-after-query")
+    return sorted(set(labels))
+
+
+def s_header_history():
+    from gen.common import weighted
+    u32 = boundary_ints(0, 2 ** 32 - 1)
+    op = weighted((3, st.just(["id"])), (2, st.just(["hash"])), (1, st.just(["as_bin"])), (1, st.just(["str"])),
+                  (3, st.tuples(st.just("nonce"), u32).map(list)))
+    return st.builds(lambda h, ops: dict(h, ops=ops), s_header(), st.lists(op, min_size=3, max_size=9))
+
+
 def s_header():
     u32 = boundary_ints(0, 2 ** 32 - 1)
     h32 = st.one_of(st.binary(min_size=32, max_size=32),
@@ -460,6 +503,9 @@ SUBCHECKS = [
              rule="80-byte headers with every field full range (boundary + uniform uint32, patterned 32-byte hashes), BTC and LTC block "
                   "classes: parse_as_header/parse(include_transactions=False) -> as_bin/stream_header identity, parsed fields, id() = "
                   "reversed SHA256d of the reference bytes"),
+    SubCheck("header_history", o_header_history, strategy=s_header_history, budget=(1500, 100000),
+             nontrivial=lambda c, l: "query-after-set_nonce-after-query" in l,
+             rule="one long-lived header object, 3-9 operations: id() / hash() / as_bin() / str() queries interleaved with set_nonce(n); every answer equals the reference for the 80 bytes as they are at that moment; non-trivial = a query after a set_nonce that itself followed a query"),
     SubCheck("blocks", o_block, strategy=s_block, budget=(1500, 60000), nontrivial=nt_block,
              rule="blocks of n in {1,2,3,4,5,7,8,9,15,16,17,31,33} or uniform <= 120 small transactions (1-3 inputs/outputs, scripts 0-300 "
                   "bytes, 1/4 BIP144 form) serialised by the reference: from_bin(b).as_bin() == b, id, per-transaction hashes, p2p block "
